@@ -45,6 +45,7 @@ struct %(FUN)s { _Bool set; };
 #define %(VS)s__push_back_rv__1(v, e) vf_vs_push((v), (e), 1)
 #define %(VS)s__erase__2 vf_vs_erase
 #define %(VSIT)s__op_deref__0 vf_vsit_deref
+#define %(VSIT)s__op_arrow__0 vf_vsit_deref
 #define %(VSIT)s__op_inc__0(it) ((it)->idx = (it)->idx + 1, (it))
 #define %(VSIT)s__ctor__normal_iterator_%(SP)s_%(VS)s_ref(d, s) (*(d) = *(s))
 #define ext_op_ne__normal_iterator_%(SP)s_%(VS)s_ref_normal_iterator_%(SP)s_%(VS)s_ref(a, b) ((a)->idx != (b)->idx)
@@ -293,8 +294,12 @@ void NAME(struct %(VSIT)s *ret, struct %(VSIT)s *a, struct %(VSIT)s *b, struct L
   ret->v = v; ret->idx = v->size - g_removed; \
 }
 struct %(DDL)s__destroyObjects__void__lambda0; struct %(DDS)s__destroyObjects__void__lambda0;
+#ifdef VF_HAVE_%(DDL)s__destroyObjects__void__lambda0__op_call_T_%(SP)s
 REMOVE_IF(vf_remove_if_l, %(DDL)s__destroyObjects__void__lambda0)
+#endif
+#ifdef VF_HAVE_%(DDS)s__destroyObjects__void__lambda0__op_call_T_%(SP)s
 REMOVE_IF(vf_remove_if_s, %(DDS)s__destroyObjects__void__lambda0)
+#endif
 ''' % D
 
 UNIT = dict(
